@@ -351,6 +351,8 @@ def _run_case_in(case: dict, res: dict, fail, backend: str) -> dict:
         os.makedirs(os.path.dirname(dest) or ".", exist_ok=True)
         base_dir = os.path.dirname(dest)
         rel = case.get("ext")
+        if rel == "<ABS>":
+            rel = os.path.join(os.path.abspath(tmp), "abs-model.data")
         if rel and not os.path.isabs(rel):
             cur = base_dir or "."
             for part in rel.split("/")[:-1]:
@@ -1000,7 +1002,7 @@ def gen_fail_case(rng: random.Random, backend: str) -> dict:
         specs.append({"kind": "mem", "dtype": "UINT8", "shape": [3], "seed": 5, "name": "same", "graph": 0})
         specs.append({"kind": "mem", "dtype": "UINT8", "shape": [3], "seed": 6, "name": "same", "graph": 2})
     elif mode == "abs_path":
-        case["ext"] = "/c07-absolute/model.data"  # rejected before anything is touched
+        case["ext"] = "<ABS>"  # an absolute path into the (writable) scratch directory: must be rejected up front
     elif mode == "validate":
         case["workers"] = 0
     elif mode == "early":
